@@ -569,6 +569,12 @@ class IH5Group(IH5InnerNode):
         if nodes[-1]._gpath == path:
             raise ValueError("Cannot create group, it already exists!")
 
+        # create missing ancestor groups explicitly, so that the first missing one
+        # substitutes whatever used to be there (e.g. was deleted in some patch)
+        parent_path = path[: path.rfind("/")] or "/"
+        if nodes[-1]._gpath != parent_path:
+            self.create_group(parent_path)
+
         # remove "deleted" marker, if set at current path in current patch container
         if path in self._files[-1] and _node_is_del_mark(self._files[-1][path]):
             del self._files[-1][path]
